@@ -9,6 +9,7 @@ import (
 	"math/rand/v2"
 	"strings"
 	"sync"
+	"sync/atomic"
 	"time"
 
 	"github.com/zishang520/engine.io/v2/config"
@@ -493,6 +494,50 @@ func quicLimit(r *rep.Report) {
 		c.Close()
 		if !echo(tc.name) {
 			r.Violationf("c10-other-session-disturbed", map[string]string{"frame": tc.name}, "the canary session %s no longer echoes after the case %q", canarySid, tc.name)
+			return
+		}
+	}
+	// the very first frame of a fresh stream (the handshake message) is bounded like any other:
+	// a header declaring 8 MiB, then as much payload as the server is willing to take
+	for _, declared := range []uint64{8 << 20, limit + 1} {
+		c, err := q.DialWT(false)
+		if err != nil {
+			r.Inconclusive("quic session could not be opened: " + err.Error())
+			continue
+		}
+		r.Case(fmt.Sprintf("quic/limit/first-frame-declares-%d", declared), true)
+		r.Obs("quic_limit_cases", 1)
+		var sent atomic.Int64
+		wdone := make(chan struct{})
+		go func() {
+			defer close(wdone)
+			if c.WriteRaw(huge(declared, 0)) != nil {
+				return
+			}
+			chunk := bytes.Repeat([]byte("z"), 32<<10)
+			for left := int64(declared); left > 0; left -= int64(len(chunk)) {
+				if c.WriteRaw(chunk) != nil {
+					return
+				}
+				sent.Add(int64(len(chunk)))
+			}
+		}()
+		closed := false
+		select {
+		case <-c.Session.Context().Done():
+			closed = true
+		case <-time.After(quicBound):
+		}
+		c.Close()
+		<-wdone
+		const quicWindows = 2 << 20 // what QUIC's flow-control windows let a sender put in flight
+		if sent.Load() > limit+quicWindows {
+			r.Violationf("c10-oversized-frame-consumed:webtransport-quic-first-frame", map[string]any{"declared": declared}, "first frame of a fresh WebTransport stream declares %d bytes (limit %d): the server took %d bytes of it", declared, limit, sent.Load())
+		} else if !closed {
+			r.Violationf("c10-oversized-frame-did-not-close:webtransport-quic-first-frame", map[string]any{"declared": declared}, "first frame of a fresh WebTransport stream declares %d bytes (limit %d): the WebTransport session was still open after %v (%d bytes taken)", declared, limit, quicBound, sent.Load())
+		}
+		if !echo("first-frame") {
+			r.Violationf("c10-other-session-disturbed", map[string]string{"frame": "oversized first frame"}, "the canary session %s no longer echoes after an oversized first frame", canarySid)
 			return
 		}
 	}
